@@ -14,14 +14,44 @@ TOL = 1e-3
 
 
 def run_shard(spec):
+    if spec.get("part") == "scripted-physics":
+        from vf.props import scripted as SC
+
+        return SC.run_batch(spec)
     from vf.scenario import run_shard as rs
 
     return rs(spec)
 
 
+def scripted_part(rep, tier, seed):
+    """The real search classes on scripted physics (vf/props/scripted.py): this property's clauses with the full table known."""
+    from vf.pool import run_pool as _rp
+
+    specs = [{"part": "scripted-physics", "seed": seed, "shard": s, "nshards": 16, "n1d": {"quick": 24, "thorough": 48}[tier],
+              "nnested": {"quick": 150, "thorough": 1500}[tier]} for s in range(16)]
+    runs = 0
+    stats = {}
+    for r in _rp("vf.props.%s" % PROP, specs, timeout=3600):
+        if "_harness_error" in r:
+            rep.inconclusive.append("scripted shard failed: " + r["_harness_error"][:300])
+            continue
+        runs += r["runs"]
+        for k, v in r["stats"].items():
+            stats[k] = stats.get(k, 0) + v
+        for v in r["viol"][PROP]:
+            rep.violate(v["mechanism"], v["message"], {"case": v["case"]})
+    rep.evaluations += runs
+    rep.extra["scripted_physics_runs"] = runs
+    rep.extra["scripted_physics_stats"] = stats
+    if runs == 0:
+        rep.inconclusive.append("scripted-physics runs did not execute")
+    return stats
+
+
 def check(tier, seed):
     recs, problems = PC.records(tier, seed)
     rep = Report(PROP)
+    _sstats = scripted_part(rep, tier, seed)
     rep.rule = (
         "scenario = full design run: 6 design methods x 4 pipe types x 2 flow types x 12 load families x generated media/borehole/limits/"
         "height windows/horizons (12..360 months incl. non-multiples of 12), load magnitude aimed below, inside and beyond the land's capacity. "
